@@ -106,6 +106,10 @@ def c07(proj, rep, tier):
     rep.floor('H7 register size from every index slot', n, 1)
     n = clifford.h8(proj, rep)
     rep.floor('H8 phase-convention conversions in clifford_array_to_F2', n, 2)
+    n = clifford.h9(proj, rep)
+    rep.floor('H9 formulations of the ordering-phase term of clifford_multiply', n, 1)
+    nopen, nfun = round3b.ax1_sm1_sinc1_vm1(proj, rep, ['numqi.sim'] if tier == 'quick' else None)
+    rep.floor('VM1 / SINC1 / SM1 / AX1 sweep: functions scanned (simulator)', nfun, 60)
     n, nrec = clifford.h2(proj, rep)
     rep.floor('H2 recorder factories', nrec, 8)
     rep.floor('H2 table entries', n, 30)
@@ -188,6 +192,8 @@ def c01(proj, rep, tier):
     rep.floor('K5 eigsh calls in the manifold modules', n, 1)
     n = shapes.sh2(proj, rep)
     rep.floor('SH2 Euler-recursion reshape sites with an exact width function', n, 4)
+    nopen, nfun = round3b.ax1_sm1_sinc1_vm1(proj, rep, MANIFOLD if tier == 'quick' else None)
+    rep.floor('AX1 / SM1 / SINC1 / VM1 sweep: functions scanned (manifold)', nfun, 50)
     rep.assume('membership itself (unit norm, PSD, X^dagger X = I, simplex, interval) for all theta is value-level: not decided; '
                'known blind spots: float32 conditioning, formulas whose error keeps shapes, parity and backend agreement')
 
@@ -324,6 +330,10 @@ def c03(proj, rep, tier):
     rep.floor('R1 leg-relabelling contractions', n, 7)
     n = circuit.d5(proj, rep)
     rep.floor('D5 target-order assignments in the Circuit builders', n, 5)
+    nl, na, nf = round3b.sim_sweeps(proj, rep)
+    rep.floor('D6 sweeps over the gate list', nl, 5)
+    rep.floor('NR1 apply_* primitives of the simulator', na, 5)
+    rep.floor('PG1 functions of numqi.sim + numqi.gate scanned for angle wrapping', nf, 100)
     n = ownership.pu1(proj, rep, ['numqi.sim.state', 'numqi.sim.dm'] if tier == 'quick' else sorted(proj.modules))
     rep.floor('PU1 simulator primitives with in-place stores', n, 3)
     n = typestate.h5(proj, rep, ['numqi.sim.circuit.Circuit'])
@@ -362,6 +372,12 @@ def c04(proj, rep, tier):
     backend.b1(proj, rep, ['numqi.gate._internal'], expect_match=B1_GATE)
     n = twins.tw(proj, rep, ['numqi.sim.state', 'numqi.sim._torch_utils', 'numqi._torch_op', 'numqi.qec._internal'])
     rep.floor('TW twin blocks in the backward helpers (grad / conj halves of the op_grad contraction)', n, 2)
+    n = round3b.a10(proj, rep)
+    rep.floor('A10 forward / backward methods of the autograd Functions', n, 8)
+    n = round3b.a11(proj, rep)
+    rep.floor('A11 backward primitives whose gradient structure is value-independent', n, 2)
+    n = round3b.al3(proj, rep, None)
+    rep.floor('AL3 memo keys compared with an argument', n, 3)
     rep.assume('that the accumulated numbers equal the derivative (Sylvester backward of sqrtm, Pade logm, the op_grad einsum) is '
                'value-level: not decided')
 
@@ -596,6 +612,8 @@ def with_mc3(pid, f):
     def g(proj, rep, tier):
         f(proj, rep, tier)
         n = round3b.mc3(proj, rep, MC3_SCOPE[pid] if tier == 'quick' else None)
+        if pid != 'C14':
+            round3b.mc2(proj, rep, MC3_SCOPE[pid] if tier == 'quick' else None)
         if tier != 'quick':
             rep.floor('MC3 memoised functions of the package (reviewed set)', n, 20)
         # PU1 over the modules of the property (package-wide in the thorough tier); the properties that already run it keep their own floors
